@@ -112,6 +112,8 @@ def two_table_rules(p):
     R.append(("join.agg_in_on", "FunctionTypeError", lambda t, u, w: t >> p.inner_join(u, t.a == u.x.max())))
     R.append(("join.type_error_in_on", "DataTypeError", lambda t, u, w: t >> p.inner_join(u, t.s == u.k)))
     R.append(("join.unknown_in_on", "ValueError", lambda t, u, w: t >> p.inner_join(u, C.nope == u.k)))
+    R.append(("join.on_col_dropped_by_summarize", "ValueError", lambda t, u, w: t >> p.group_by(t.g) >> p.summarize(s=t.b.sum()) >> p.inner_join(u, t.a == u.k)))
+    R.append(("join.on_col_cut_by_alias", "ValueError", lambda t, u, w: t >> p.alias("z") >> p.inner_join(u, t.a == u.k)))
     R.append(("join.ambiguous_C", "ValueError", lambda t, u, w: t >> p.rename({"a": "k"}) >> p.inner_join(u, C.k == C.k)))
     R.append(("join.user_suffix_collides", "ValueError", lambda t, u, w: t >> p.rename({"b": "x_r"}) >> p.inner_join(u, t.a == u.k, suffix="_r")))
     R.append(("join.full_non_equality", "ValueError", lambda t, u, w: t >> p.full_join(u, t.a < u.k)))
